@@ -52,8 +52,8 @@ PROPS = {
         assumptions=['real-time bounds are observed with slack (scheduler latency is not proved): partial clause']),
     'C13': dict(title='Only connections from configured peers to the configured address are served', live=True, lean=['CoreBGP.Props.C13', 'CoreBGP.Props.DecTieC13'],
         rule='live admission grid: listener {specific, wildcard} x peer with/without local address x source {configured, other loopback address} x destination {configured, other} x peer state at arrival {idle, inbound in progress, Established, held down}; zero bytes + EOF vs OPEN judged from the trace, an unrelated Established session must stay alive'),
-    'C01': dict(title='One Established session per peer; well-formed plugin callback history', live=True, lean=['CoreBGP.Props.C01', 'CoreBGP.Props.C09Tie', 'CoreBGP.Props.PathTieC01'],
-        rule='union of the live families in which sessions come and go (collision grid + forced windows, state x message table, shutdown at every point, reconnection fault sequences): every trace must be a trace of the L2 transition system (state-set tracking) and pass the plugin-history monitor (prefix of (E+E-(H+H-)*C+C-)*, complete at Close/DeletePeer, GetCapabilities / OnOpenMessage counts)',
+    'C01': dict(title='One Established session per peer; well-formed plugin callback history', l0=True, live=True, lean=['CoreBGP.Props.C01', 'CoreBGP.Props.C09Tie', 'CoreBGP.Props.PathTieC01', 'CoreBGP.Props.C20'],
+        rule='registry sequences through the real Server (L0 `reg`, incl. IPv4-mapped peer addresses: a second AddPeer of a present key is refused, so there is one peer manager per configured peer); union of the live families in which sessions come and go (collision grid + forced windows, state x message table, shutdown at every point, reconnection fault sequences): every trace must be a trace of the L2 transition system (state-set tracking) and pass the plugin-history monitor (prefix of (E+E-(H+H-)*C+C-)*, complete at Close/DeletePeer, GetCapabilities / OnOpenMessage counts)',
         assumptions=['plugin callbacks are atomic enter/exit pairs that always return']),
     'C11': dict(title='Reconnection liveness and retry pacing after non-damping faults', live=True, lean=['CoreBGP.Props.C11', 'CoreBGP.Props.C11T', 'CoreBGP.Props.DecTieC11', 'CoreBGP.Props.PathTieC11'],
         rule='live fault sequences (refuse, close / reset / Cease at OpenSent / OpenConfirm / Established, seeded random sequences) followed by a well-behaved remote, idle-hold in {50,100,200} ms, passive and active peers, inbound session ending; pacing monitor on the exits from Idle and on dial timestamps, bound on time-to-Established',
